@@ -258,7 +258,8 @@ pub async fn scenario(events: Vec<Ev>) -> Obs {
             Ev::PRefuseAttach => !refuse_next_attach && peer_ended.is_none() && !session_over,
             Ev::PTransferUnattached => peer_ended.is_none() && !session_over,
             // (also after a local close / drop of the receiver that the peer has not answered yet: transfers that cross it)
-            Ev::PXfer2 => peer_side_attached(&c.peer.trace, "r").is_some() && peer_ended.is_none() && c.peer.sessions.get(&0).map(|s| !s.end_sent).unwrap_or(false) && peer_xfers < 20,
+            // (also after a local end that the peer has not answered yet - see `last_sess` below: transfers that cross it)
+            Ev::PXfer2 => peer_side_attached(&c.peer.trace, "r").is_some() && peer_ended.is_none() && last_sess.as_ref().map(|s| !s.end_sent).unwrap_or(false) && !peer_sent_end(&c.peer.trace) && peer_xfers < 20,
             // (the peer forgets a session the library has ended even while it withholds its own end: its last view is kept
             // in `last_sess` so that a flow which crosses the library's end can still be written)
             Ev::PFlowEcho => peer_ended.is_none() && last_sess.as_ref().map(|s| s.lib_begin_seen && !s.end_sent).unwrap_or(false) && !peer_sent_end(&c.peer.trace),
